@@ -7,7 +7,7 @@ import signal
 import tempfile
 
 from . import native, front
-from .types import T, Int, Bool, Bytes, Str, NoneT, Const, Opt, OneOf, ListT, TupleT, SeqStr, DictT, Obj, EnumT, TagT, Enc, Lib, Any
+from .types import T, Int, Bool, Bytes, Str, NoneT, Const, Opt, OneOf, ListT, TupleT, SeqStr, DictT, Obj, EnumT, TagT, Enc, Lib, Any, PathStr
 
 
 class CannotBuild(Exception):
@@ -97,7 +97,19 @@ def replay_counterexample(c, cex_json, module=None, timeout_s=60):
                 return {"status": "cannot-build", "failures": [], "note": "adapter declined"}
             inputs, call, extra_ns = prepared
         else:
-            inputs = {name: build_native(t, cex.get(name)) for name, t in c.params}
+            inputs = {}
+            for name, t in list(c.params) + list(c.ghosts):
+                if isinstance(t, PathStr):
+                    # ghost file system -> real temporary files (the model's path string itself is irrelevant)
+                    path = os.path.join(tmp, name)
+                    st = cex.get(f"__fs__{name}")
+                    if st and st[0]:
+                        content = st[1] if isinstance(st[1], bytes) else bytes(st[1].get("__bytes_len__", 0)) if isinstance(st[1], dict) else b""
+                        with open(path, "wb") as fh:
+                            fh.write(content)
+                    inputs[name] = path
+                else:
+                    inputs[name] = build_native(t, cex.get(name))
             call, extra_ns = None, None
         nr = native.run_case(c, inputs, call=call, extra_ns=extra_ns)
         if nr.skipped:
